@@ -6,7 +6,7 @@
    nothing above the head), verify-hash index = l, head record = head of l, no marks, every root
    openable, executed-transaction store = the transactions of l. *)
 From Coq Require Import List NArith Bool Lia.
-From V.C05 Require Import Model Proofs Pending.
+From V.C05 Require Import Model Proofs Pending Readers.
 Import ListNotations.
 Local Open Scope N_scope.
 
@@ -291,3 +291,39 @@ Example C05_pending_example :
   map (Pending.X p0) [7; 8; 9] = [true; true; false] /\
   map (Pending.R p1) [7; 8; 9] = [true; true; false] /\ map (Pending.X p1) [7; 8; 9] = [false; false; true].
 Proof. vm_compute. repeat split; reflexivity. Qed.
+
+(* Lock-free readers (QueryBlockHeaderByHeight(h,true), GetBlockHash: topBlocks first, then the height
+   store) interleaved step by step with the store writes and the topBlocks updates of complete
+   insertBlock / remove runs of the chain goroutine. The event lists carry exactly the model's write
+   lists. In the code as it is a reader never writes the cache: for ANY interleaving, whatever the cache
+   holds for a height is what the height store holds, so a cached read answers like the store - and the
+   store is the image of the chain (C05_inv_meaning). *)
+Theorem C05_cached_reads_see_chain : forall evs c,
+  no_fill evs -> seq_ops c (main_of evs) -> cache_ok c ->
+  cache_ok (erun evs c) /\ forall n, cached_read (erun evs c) n = byHeight (c_st (erun evs c)) n.
+Proof. exact cached_reads_see_store. Qed.
+Print Assumptions C05_cached_reads_see_chain.
+
+Theorem C05_reader_events_faithful : forall s b,
+  writes_of (insert_events b) = insert_writes b /\ writes_of (remove_events s b) = remove_writes s b.
+Proof. intros. split. apply insert_events_writes. apply remove_events_writes. Qed.
+
+(* The variant in which a reader that missed the cache puts the value it read into it (seeded change
+   C05-5): reader 0 reads height 1 from the store (a1) on a cold cache, the chain removes a1 and inserts
+   the sibling b1, the reader fills the cache - from then on cached reads of height 1 answer the removed
+   a1 while the store holds b1. Replayed on the real code by the harness's gated schedules (key
+   C05/inv-height-index:cached-read-stale). *)
+Example C05_read_fills_cache_refuted :
+  let c0 := mkC (st_of [a1; g0]) (fun _ => None) (fun _ => None) in
+  let evs := [RRead 0 1] ++ remove_events (c_st c0) a1 ++ insert_events b1 ++ [RFill 0 1] in
+  let c := erun evs c0 in
+  seq_ops c0 (main_of evs) /\ cache_ok c0 /\
+  option_map hash (byHeight (c_st c) 1) = Some 4 /\ option_map hash (cached_read c 1) = Some 2 /\ ~ cache_ok c.
+Proof.
+  cbn zeta. split; [|split; [discriminate|]].
+  - change (main_of ([RRead 0 1] ++ remove_events (st_of [a1; g0]) a1 ++ insert_events b1 ++ [RFill 0 1]))
+      with (remove_events (st_of [a1; g0]) a1 ++ insert_events b1 ++ []).
+    apply (so_rem (mkC (st_of [a1; g0]) (fun _ => None) (fun _ => None)) a1). apply so_ins. apply so_nil.
+  - split; [reflexivity|]. split; [reflexivity|].
+    intro H. specialize (H 1 a1 eq_refl). vm_compute in H. discriminate.
+Qed.
